@@ -163,8 +163,15 @@ def run_fft(case, stt):
         return x
 
     dx = da.from_delayed(dask.delayed(produce, pure=False)(), shape=x.shape, dtype=x.dtype).rechunk(tuple(case["chunks"]))
+    # sequence arguments are handed over as the caller's own LIST objects, and looked at again afterwards: a call may not edit them (the next
+    # call with the same list on another array would silently get other lengths)
+    own = {k_: list(v) for k_, v in pos_kw.items() if isinstance(v, tuple)}
     with lib("pb.fft.%s on a Dask array" % name):
-        yd = f(dx, *pos_args, **pos_kw)
+        yd = f(dx, *pos_args, **{**pos_kw, **own})
+    for k_, v in own.items():
+        check(v == list(pos_kw[k_]), "pb.fft.{} on a Dask array rewrote the caller's list {}= {} -> {}", name, k_, list(pos_kw[k_]), v)
+    if own:
+        stt.label("list_arguments_checked")
     check(isinstance(yd, da.Array), "pb.fft.{} on a Dask array returns {}", name, type(yd).__name__)
     check(calls["n"] == 0, "pb.fft.{} computed its Dask input while building the result", name)
     check(yd.shape == y.shape, "Dask result shape {} != NumPy result shape {}", yd.shape, y.shape)
